@@ -114,6 +114,10 @@ func (e *Engine) VerifyUnit(u *Unit) (res *UnitResult) {
 		fx.vals[p] = v
 		fx.params[p.Name()] = specVal{v, p.Type()}
 		fx.assumeType(st, v, p.Type())
+		if isStringT(p.Type()) {
+			// representation choice, without loss of generality for a fresh symbolic string
+			c.Assume(Eq(StrOff(v), IntLit(0)))
+		}
 	}
 	for _, fv := range fn.FreeVars {
 		v := c.Const("fv_"+fv.Name(), SInt)
@@ -129,6 +133,9 @@ func (e *Engine) VerifyUnit(u *Unit) (res *UnitResult) {
 		v := c.Const("g_"+g.Name, e.sortOf(t))
 		fx.ghosts[g.Name] = specVal{v, t}
 		fx.assumeType(st, v, t)
+		if isStringT(t) {
+			c.Assume(Eq(StrOff(v), IntLit(0)))
+		}
 	}
 	fx.entry = st
 	env := fx.specEnvEntry()
